@@ -699,3 +699,88 @@ def family_conx(tier='quick'):
         out.append(Desc(nodes, edges, ['S'], choices=ch, constraints=[(ctype, ['A', 'B'])],
                         label=f'conx-{ctype}-deep-sorts-first'))
     return out
+
+
+def family_mix(tier='quick'):
+    """MIX: seeded random graphs that combine the ingredients of the other families on a larger scale: 3-5 selection
+    choices nested up to three levels (some options derive shared nodes), 0-2 incompatibility pairs, optionally one
+    choice constraint over choices with equal option counts, design-variable and metric nodes under random nodes, and
+    optionally one connection choice whose connectors hang below random nodes."""
+    n = 14 if tier == 'quick' else 120
+    rng = random.Random(424242)
+    out = []
+    for k in range(n):
+        nodes = ['S']
+        edges = []
+        choices = []
+        frontier = [('S', 0)]
+        nc = 0
+        depth = rng.randint(2, 3)
+        placed = ['S']
+        while frontier and nc < rng.randint(3, 5):
+            origin, lvl = frontier.pop(0)
+            if lvl >= depth:
+                continue
+            nc += 1
+            nopt = rng.choice([2, 2, 3])
+            opts = [f'c{nc}o{i}' for i in range(nopt)]
+            nodes += opts
+            choices.append((f'C{nc}', origin, opts))
+            for o in opts:
+                placed.append(o)
+                r = rng.random()
+                if r < 0.45:
+                    d = f'{o}d'
+                    nodes.append(d)
+                    edges.append((o, d))
+                    placed.append(d)
+                    frontier.append((d, lvl + 1))
+                elif r < 0.75:
+                    frontier.append((o, lvl + 1))
+            rng.shuffle(frontier)
+        # shared derived node: two options of different choices derive the same node
+        derived = [x for x in nodes if x.endswith('d')]
+        optnodes = [o for c in choices for o in c[2]]
+        if derived and len(optnodes) >= 3 and rng.random() < 0.6:
+            tgt = rng.choice(derived)
+            src = rng.choice([o for o in optnodes if o + 'd' != tgt])
+            if (src, tgt) not in edges:
+                edges.append((src, tgt))
+        incompat = []
+        for _ in range(rng.choice([0, 0, 1, 1, 2])):
+            a, b_ = rng.sample([x for x in nodes if x != 'S'], 2)
+            incompat.append((a, b_))
+        constraints = []
+        by_count = {}
+        for c in choices:
+            by_count.setdefault(len(c[2]), []).append(c[0])
+        cand = [v for v in by_count.values() if len(v) >= 2]
+        if cand and rng.random() < 0.5:
+            grp = rng.choice(cand)
+            m = rng.randint(2, min(3, len(grp)))
+            constraints.append((rng.choice(['LINKED', 'PERMUTATION', 'UNORDERED', 'UNORDERED_NOREPL']), sorted(rng.sample(grp, m))))
+        dvs, mets = [], []
+        for i in range(rng.choice([0, 1, 2])):
+            parent = rng.choice(placed)
+            if rng.random() < 0.5:
+                dvs.append((f'dv{i}', parent, None, ['x', 'y', 'z'][:rng.randint(2, 3)]))
+            else:
+                dvs.append((f'dv{i}', parent, (0.0, float(rng.randint(1, 4))), None))
+        for i in range(rng.choice([0, 1, 2])):
+            parent = rng.choice(placed)
+            mets.append((f'm{i}', parent, rng.choice([None, -1, 1]), rng.choice([None, 1.5]), rng.choice([None, 'NONE'])))
+        conns, ccs = [], []
+        if rng.random() < 0.5:
+            specs = [(('list', (1,)), False), (('range', 0, 1), False), (('min', 0), True), (('range', 1, 2), True), (('min', 1), False)]
+            ns, nt = rng.randint(1, 2), rng.randint(1, 3)
+            for i in range(ns):
+                d, r = rng.choice(specs)
+                conns.append((f's{i}', d, r, rng.choice(placed)))
+            for i in range(nt):
+                d, r = rng.choice(specs)
+                conns.append((f't{i}', d, r, rng.choice(placed)))
+            ccs.append(('K1', [f's{i}' for i in range(ns)], [f't{i}' for i in range(nt)], []))
+        out.append(Desc(nodes, edges, ['S'], choices=choices, incompat=incompat, constraints=constraints, conns=conns,
+                        conn_choices=ccs, dvs=dvs, metrics=[m for m in mets if not (m[2] is not None and m[3] is not None and m[4] is None)],
+                        label=f'mix-{k}'))
+    return out
